@@ -320,6 +320,23 @@ func RunTxFlow(c *Ctx) {
 			}
 		}
 	}
+	// 1d. a burst: many transactions arrive between two reaper rounds (what one mempool query returns is not bounded)
+	for _, bound := range []int{0, 2} {
+		for _, n := range []int{501, 1200} {
+			f := newFlowRun(c, fmt.Sprintf("burst/b%d/n%d", bound, n), bound)
+			f.start(-1)
+			f.inject(n, nil)
+			f.reap(-1)
+			f.step(-1)
+			f.step(-1)
+			f.inject(2, nil)
+			f.reap(-1)
+			f.step(-1)
+			f.settle()
+			f.w.Close()
+			c.Count("burstruns", 1)
+		}
+	}
 	// 2. seeded random histories
 	n := 60
 	if c.Thorough() {
